@@ -85,12 +85,31 @@ fn sorted(v: &[Action]) -> Vec<String> {
 /// Plays one game from `(b, side)` and its image in lock step; all comparisons are on real outputs.
 pub fn lockstep(b: &B, side: bool, mv: &str, sym: Sym, policy: Policy, plies: usize, rng: &mut Rng, rep: &mut Report) {
     let d1 = diagram(b, side, mv);
-    let d2 = diagram(&board_map(sym, b), side ^ swaps_colour(sym), mv);
-    let (Some(g1), Some(mut g2)) = (Game::parse(&d1), Game::parse(&d2)) else { return };
+    lockstep_from(&d1, sym, policy, plies, None, rng, rep)
+}
+
+/// A stored game (diagram, `--`, actions) replayed in lock step with its image.
+pub fn lockstep_game(text: &str, sym: Sym, rng: &mut Rng, rep: &mut Report) {
+    let Some((start, acts)) = text.split_once("\n--\n") else { return };
+    if start.trim() == "INIT" {
+        return;
+    }
+    let script: Vec<Action> = acts.split_whitespace().filter_map(|a| a.parse::<Action>().ok()).collect();
+    let n = script.len() + 1;
+    lockstep_from(start, sym, Policy::Uniform, n, Some(script), rng, rep)
+}
+
+fn lockstep_from(d1: &str, sym: Sym, policy: Policy, plies: usize, script: Option<Vec<Action>>, rng: &mut Rng, rep: &mut Report) {
+    let Some(g1) = Game::parse(d1) else { return };
+    let b = arr(g1.state.piece_board());
+    let side = g1.state.is_p1_turn_to_move();
+    let mv = g1.state.move_number().to_string();
+    let d2 = diagram(&board_map(sym, &b), side ^ swaps_colour(sym), &mv);
+    let Some(mut g2) = Game::parse(&d2) else { return };
     let mut g1 = g1;
     let mut player = Player::new(policy, true);
     let mut dummy = Report::new();
-    for _ in 0..plies {
+    for ply in 0..plies {
         rep.eval("C11");
         let (s1, s2) = (g1.state.clone(), g2.state.clone());
         let (va1, va2) = (s1.valid_actions(), s2.valid_actions());
@@ -129,7 +148,15 @@ pub fn lockstep(b: &B, side: bool, mv: &str, sym: Sym, policy: Policy, plies: us
         if t1.is_some() || va1.is_empty() {
             return;
         }
-        let a = player.choose(&g1, &va1, rng);
+        let a = match &script {
+            Some(sc) => {
+                if ply >= sc.len() || !va1.contains(&sc[ply]) {
+                    return;
+                }
+                sc[ply]
+            }
+            None => player.choose(&g1, &va1, rng),
+        };
         let a2 = action_map(sym, &a);
         if !g1.step(&a, &mut dummy) || !g2.step(&a2, &mut dummy) {
             return;
